@@ -6,31 +6,34 @@ rebuild the simulator, run the given checks (default: all claimed) at quick tier
 the evidence files, record the verdicts in /verif/seeded/<name>/caught.json, move the replay files
 the runs produced next to it, and ALWAYS undo the patch and rebuild afterwards."""
 import json, os, subprocess, sys, time, glob, shutil
+# SEED_REPO / SEED_SIM / KVERIF_ROOT redirect a run to a scratch worktree of /repo and a scratch copy of
+# /verif/sim (exploratory runs while /repo is busy); the results that count are taken against /repo itself
+REPO = os.environ.get('SEED_REPO', '/repo'); SIM = os.environ.get('SEED_SIM', '/verif/sim'); ROOT = os.environ.get('KVERIF_ROOT', '/verif')
 name = sys.argv[1]
 d = f'/verif/seeded/{name}'
 checks = sys.argv[2:] or [c['property_id'] for c in json.load(open('/verif/MANIFEST.json'))['checks']]
-if subprocess.run(['git','-C','/repo','diff','--quiet']).returncode != 0:
+if subprocess.run(['git','-C',REPO,'diff','--quiet']).returncode != 0:
     print('repo dirty'); sys.exit(2)
-before = set(glob.glob('/verif/replays/*.json'))
+before = set(glob.glob(f'{ROOT}/replays/*.json'))
 res = {}
 try:
-    subprocess.run(['git','-C','/repo','apply',f'{d}/patch.diff'], check=True)
-    b = subprocess.run('cd /verif/sim && CARGO_NET_OFFLINE=true cargo build --release --offline', shell=True, capture_output=True, text=True)
+    subprocess.run(['git','-C',REPO,'apply',f'{d}/patch.diff'], check=True)
+    b = subprocess.run(f'cd {SIM} && CARGO_NET_OFFLINE=true cargo build --release --offline', shell=True, capture_output=True, text=True)
     if b.returncode != 0:
         print('DOES NOT COMPILE under the shadow manifest'); print(b.stderr[-2000:]); sys.exit(4)
     for c in checks:
         t = time.time()
-        r = subprocess.run(f'cd /verif && timeout 1800 ./sim/target/release/kverif check {c} --tier quick --no-evidence', shell=True, capture_output=True, text=True)
+        r = subprocess.run(f'timeout 1800 {SIM}/target/release/kverif check {c} --tier quick --no-evidence', shell=True, capture_output=True, text=True)
         out = r.stdout + r.stderr
         oracle = [l for l in out.split('\n') if l.startswith('oracle')]
         viol = [l for l in out.split('\n') if l.startswith('VIOLATION')]
         res[c] = {'exit': r.returncode, 'secs': round(time.time()-t,1), 'oracle': oracle[0][:400] if oracle else None, 'violation_line': viol[0] if viol else None}
         print(name, c, 'exit', r.returncode, (oracle[0][:200] if oracle else ''), flush=True)
 finally:
-    subprocess.run(['git','-C','/repo','checkout','--','.'])
+    subprocess.run(['git','-C',REPO,'checkout','--','.'])
     if not os.environ.get('SEED_RUN_SKIP_FINAL_REBUILD'):
-        subprocess.run('cd /verif/sim && CARGO_NET_OFFLINE=true cargo build --release --offline', shell=True, capture_output=True)
-new = sorted(set(glob.glob('/verif/replays/*.json')) - before)
+        subprocess.run(f'cd {SIM} && CARGO_NET_OFFLINE=true cargo build --release --offline', shell=True, capture_output=True)
+new = sorted(set(glob.glob(f'{ROOT}/replays/*.json')) - before)
 os.makedirs(f'{d}/replays', exist_ok=True)
 for p in new:
     shutil.move(p, f'{d}/replays/{os.path.basename(p)}')
